@@ -115,7 +115,8 @@ SyntaxVisitor::Action DeclarationBinder::visitFunctionDefinition_AtEnd(
     VALID_TOP(scopes_, return Action::Quit);
     auto scope = scopes_.top();
     scope->morphFrom_FunctionPrototype_to_Block();
-    VISIT(node->body()->statements());
+    if (node->body())
+        VISIT(node->body()->statements());
     popScope();
 
     return Action::Skip;
